@@ -69,6 +69,14 @@ structure ExchangeOk (o a : Pc) (ex : Exchange) : Prop where
   answerDefinite : ∀ m ∈ ex.answer.media, m.setup ≠ .auto
   sections : ∀ (j : Nat) (so sa : MSec), ex.offer.media[j]? = some so → ex.answer.media[j]? = some sa → so.kind.isMedia = true →
     SectionDone ex so sa
+  /-- the six calls and what each half established (used by the role lemmas) -/
+  calls : ∃ o1 d0 ans0, o.createOffer = .ok (o1, d0) ∧ o1.setLocal d0 = .ok ex.offererMid ∧ ex.offererMid.localDesc = some ex.offer ∧
+    a.setRemote ex.offer = .ok ex.answererMid ∧ ex.answererMid.createAnswer = .ok ans0 ∧ ex.answererMid.setLocal ans0 = .ok ex.answerer ∧
+    ex.answerer.localDesc = some ex.answer ∧ ex.offererMid.setRemote ex.answer = .ok ex.offerer
+  offerA : OfferApplied o ex.offererMid ex.offer
+  answerA : AnswerApplied a ex.answerer ex.offer ex.answer
+  remoteO : RemoteApplied ex.offererMid ex.offerer ex.answer
+  accepts : ∀ m ∈ ex.offer.media, m.kind.isMedia = true → Accepts a.transceivers m
 
 theorem offered_codecs (k : Kind) (po pa : List Cap) {cs : List Codec}
     (h : filterPreferred (findCommon (codecsOf k) (offered k po)) pa = .ok cs) : answered k po pa = cs := by
@@ -192,7 +200,8 @@ theorem negotiate_ok {o a : Pc} (ho : WF o) (ha : WF a) (hp : Paired o a) (hc : 
   have hkm : (keysOf d).map (·.2) = d.media.map (·.mid) := by simp [keysOf, List.map_map, Function.comp_def]
   refine { wfO := hwf3, wfA := B.wf, paired := ⟨by rw [hkeys3, B.keys], ?_⟩, compat := ?_, prefsO := R.prefs.trans A.prefs, prefsA := B.prefs,
            ext := ⟨rest, by rw [hkeys3]; exact hrest⟩, offerKeys := hkeys3.symm, answerKeys := by rw [hkeys3]; exact hkeq,
-           fresh := by rw [hkeys3]; exact A.fresh, seen := ?_, offerAuto := A.setup, answerDefinite := B.setup, sections := ?_ }
+           fresh := by rw [hkeys3]; exact A.fresh, seen := ?_, offerAuto := A.setup, answerDefinite := B.setup, sections := ?_,
+           calls := ⟨o1, d0, ans0, c1, c2, c3, c4, c5, c6, c7, c8⟩, offerA := A, answerA := B, remoteO := R, accepts := hacc }
   · intro x
     rw [hseen3, B.seen, hp.seen]
   · exact ⟨hc.1.mono (R.prefs.trans A.prefs) B.prefs, hc.2.mono B.prefs (R.prefs.trans A.prefs)⟩
